@@ -13,6 +13,7 @@ MSG_IDS = [
     (r"Illegal attribute '([^']*)' for argument", r"arg:illegal-attribute:\1"),
     (r"Illegal attribute '([^']*)' for function", r"fcn:illegal-attribute:\1"),
     (r"Illegal attribute '([^']*)' for variable", r"var:illegal-attribute:\1"),
+    (r"Argument \d+ of function .* must have a name", "arg:must-have-a-name"),
     (r"Missing arg\.typemap", "arg:missing-typemap"),
     (r"intent attribute of argument .* must have a value", "intent:must-have-a-value"),
     (r"Bad value for intent", "intent:bad-value"),
@@ -93,7 +94,9 @@ def enc_decl(a, as_function):
              "1" if a.is_function_pointer() else "0", "1" if a.init is not None else "0",
              str(len(a.template_arguments)),
              "1" if (a.template_arguments and a.template_arguments[0].typemap is not None) else "0",
-             common.enc(name) if isinstance(name, str) and name else "~", str(len(attrs))]
+             (common.enc(name) if isinstance(name, str) and name else "~") if (name is None or isinstance(name, str))
+             else common.enc("<nonstr>"),      # `+name` / `+name=1`: Declaration.name is True / 1, not None
+             str(len(attrs))]
     recurse = as_function or a.is_function_pointer()
     params = (a.params or []) if recurse else None
     items.append(str(len(params)) if params is not None else "-1")
